@@ -5,6 +5,21 @@ import json, subprocess, os
 ROOT = os.path.dirname(os.path.abspath(__file__))
 
 CHECKS = {
+ "C07": dict(
+  technique="exhaustive operator / built-in / access-form x value-kind matrices with a crash oracle + rapid grammar-based 'wild' programs and semantic seed programs under a deterministic step/depth budget + depth-10000 nesting through the real CLI (+ native coverage-guided fuzzing in the thorough tier)",
+  text="Every binary operator x every ordered pair of 48 operand producers, unary operators and pairs of them; all 17 built-ins x 0-3 arguments over every combination of 37 argument producers; 20 index/property/call/statement forms x every ordered pair of 25 values; random syntactically valid programs over every node form (bounded by the step and call-depth budget, so loops and recursion cannot wedge the worker) and programs of every semantic generator and the shipped examples; nesting of parentheses, arrays, blocks, unary operators, call chains, index chains, property chains, if-chains and bounded recursion to depth 10 000 through the CLI. Outcome must be normal end or a reported runtime error; a recovered panic, a dead worker, a Go banner or exit status 2 is a violation. Exploration.",
+  note="Open findings excluded by construction and probed on every run: unbounded recursion and printing a self-containing array/object exhaust the host stack. Budget hits are inconclusive, never violations.",
+  ref="4 C07"),
+ "C13": dict(
+  technique="repetition as schedule sampling: each program is executed N times in one process and M times as fresh processes and all observations must be byte-identical; object-heavy generated programs + all semantic generators + shipped examples; source-order oracle for object-literal initialisers",
+  text="Programs with object literals of 2-6 keys whose initialisers are tagged side-effecting probes, key/value listings before and after mutation, diagnostics and prints of nested objects, function values and built-ins; programs from every semantic generator; the shipped examples (clock line removed) with a fixed stdin. N=5/M=3 (quick), N=20/M=6 (thorough) executions each must agree in stdout, outcome and first diagnostic, the CLI must agree with the batch runs, and probe tags must appear in source order. Go randomises the start of every map iteration, so a map-order dependence over k>=3 keys survives 8 agreeing runs with probability <= 0.1 per program and a campaign of hundreds of such programs with negligible probability — sampling, not control. Exploration.",
+  note="The harness cannot steer Go's map iteration offsets or memory layout; detection of order dependence is probabilistic (quantified in DESIGN.md). ক্লক is excluded as the property says.",
+  ref="4 C13"),
+ "C18": dict(
+  technique="metamorphic testing with rapid: seed programs from every generator and the shipped examples x six transformation families (alone and combined); the seed and the transformed program must print the same, end the same way and give the same first diagnostic modulo line numbers and renamed names",
+  text="(a) blanks, tabs, block comments, and outside ধরি declarations line comments and line breaks between any two tokens; (b) every digit of every numeric literal switched between scripts with probability 1/2; (c) && <-> এবং, || <-> বা; (d) bijective renaming of variable/function/parameter names to fresh Latin or Bangla identifiers (property names and keys stay); (e) redundant parentheses around random value-producing sub-expressions (never an assignment target); (f) never-executed code (if-false, while-false, else of if-true, uncalled functions with arbitrary valid bodies) at statement boundaries. Seeds are clean and failing programs. 1/4 of the budget per family alone, the full budget for random combinations; a sample also through the CLI. Exploration.",
+  note="No model judges the pair. The transformed text is re-parsed with the reference front end; an invalid result is harness trouble (exit 2).",
+  ref="4 C18"),
  "C19": dict(
   technique="enumerated command lines, outcome-class matrix and ইনপুট x stdin matrix + rapid programs with a planted fault / syntax error / input call, all through the real executable; oracle = reference front end (65), reference evaluator (stdout, 0 vs 70), exact stream contents",
   text="Command lines with 0, 1, 2, 3 arguments; script names with every kind of extension (.BN, .txt, none, .bn.txt, trailing blank), names with blanks and Bangla letters, .bn alone, missing file, directory named like a script; programs of every outcome class (clean, lexical error, syntax error, runtime error at the C06 positions) with six kinds of text endings; 0-4 ইনপুট calls (bare, prompt, empty prompt, interleaved with prints) against 0-4 stdin lines with and without final newline and with blanks/tabs around the text; random skeleton programs with a planted runtime fault, syntax error or input call. Exit status 0/65/70/64/non-zero, stdout exactly the prints and prompts (nothing for rejected texts), stderr empty iff clean. Exploration.",
